@@ -240,7 +240,9 @@ func injCatalogue(seed int64, nSoup int) []injection {
 	field("uintptr", "U uintptr", "U unsafePointerLike")
 	// whole-file forms
 	for _, f := range []struct{ id, must string }{{"grouped_decl", "either"}, {"embedded_interface", "either"}, {"empty_interface", "either"},
-		{"no_converter_interface", "reject"}, {"alias_interface", "either"}, {"interface_with_type_set", "either"}, {"only_comments", "reject"}} {
+		{"no_converter_interface", "reject"}, {"alias_interface", "either"}, {"interface_with_type_set", "either"}, {"only_comments", "reject"},
+		// unusual but well-formed files: nothing to complain about, nothing may be dropped
+		{"two_recv_same_var", "accept"}, {"line_directive", "accept"}} {
 		c = append(c, injection{ID: "file_" + f.id, Stage: "find", Must: f.must, Pos: "none", Slot: "file", File: f.id,
 			Solo: f.id == "empty_interface" || f.id == "only_comments"})
 	}
@@ -402,6 +404,18 @@ func c14Render(injs []injection) (files map[string]string, noteLine, methodLine 
 	case "only_comments":
 		w("// nothing but comments\n// :convergen\n")
 		funcs = nil
+	case "two_recv_same_var":
+		// two converter interfaces, a method of the same name in each, the same receiver name - on two types
+		w("type Convergen interface {\n\t// :recv m\n\tToD(*BS) *BD\n")
+		body()
+		w("}\n\n// :convergen\ntype Second interface {\n\t// :recv m\n\tToD(*Other) *BD\n}\n")
+		funcs = append(funcs, "BS.ToD", "Other.ToD")
+	case "line_directive":
+		// a //line directive (as generators and preprocessors leave them) renames positions, not files
+		w("//line gen/template.tmpl:100\ntype Convergen interface {\n")
+		body()
+		w("}\n")
+		noteLine, methodLine = 0, 0
 	}
 	files = map[string]string{"setup.go": sb.String(), "types.go": fmt.Sprintf(c14Types, sf, df, decls)}
 	return
@@ -540,6 +554,13 @@ func C14(c *core.Ctx) {
 				} else {
 					fs := splitFuncs(string(b))
 					for _, f := range r.funcs {
+						if i := strings.Index(f, "."); i >= 0 {
+							// a method of the type before the dot
+							if !regexp.MustCompile(`(?m)^func \(\w+ \*?` + f[:i] + `\) ` + f[i+1:] + `\(`).MatchString(string(b)) {
+								problems = append(problems, fmt.Sprintf("success reported but method %s was dropped", f))
+							}
+							continue
+						}
 						if _, ok := fs[f]; !ok {
 							problems = append(problems, fmt.Sprintf("success reported but method %s was dropped", f))
 						}
@@ -549,6 +570,9 @@ func C14(c *core.Ctx) {
 		default:
 			if strings.TrimSpace(res.Stderr) == "" {
 				problems = append(problems, fmt.Sprintf("exit %d without a message on stderr", res.Exit))
+			}
+			if !permitted["reject"] {
+				problems = append(problems, fmt.Sprintf("the input is well formed but the run failed (exit %d): %s", res.Exit, firstLine(res.Stderr)))
 			}
 			// position: only when every injection of the case is a notation / method injection
 			posDemanded := true
